@@ -12,7 +12,7 @@ mathematical result must lie in [-2^31, 2^31 - 1]; otherwise evaluating the node
 from .common import AnalysisError
 from .absint import AbsInt, DBM, Hooks, INF
 from .cxx import int_type
-from .ir import E, show
+from .ir import E, show, all_exprs
 from .paths import path_of
 
 CLASSES = ('LocalDate', 'LocalTime', 'LocalDateTime', 'OffsetDateTime', 'ZonedDateTime', 'TimeOffset', 'TimePeriod')
@@ -210,8 +210,61 @@ class OverflowHooks(Hooks):
             self.sites[key] = (ok, lo, hi, (lo1, hi1), (lo2, hi2), e)
 
 
+def year_gate_rule(R, lib):
+    """A full year becomes the stored int8 offset from 2000 only behind LocalDate::isYearValid(year): in every
+    forComponents factory that takes the year, a conversion of an expression in `year` to a signed 8-bit type must sit on
+    the branch where isYearValid(year) holds (a year outside 1873..2127 must give an error value, not wrap into range).
+    (General narrowing is not a rule: the setters and the lenient parsers truncate by design and say so.)"""
+    from .paths import Engine, Rule
+    from .ir import walk_expr
+    R.rule('R9', 'forComponents factories narrow the year to int8 only under LocalDate::isYearValid(year)', floor=2)
+    n = 0
+    for cls in ('LocalDate', 'LocalDateTime', 'OffsetDateTime', 'ZonedDateTime'):
+        for f in lib.fns('ace_time::%s::forComponents' % cls):
+            ys = [p for p, t in f.params if p == 'year']
+            if not ys or not f.body:
+                continue
+            c = '%s::forComponents:year' % cls
+            narrowings = []
+
+            class YR(Rule):
+                def initial(self_):
+                    return ['unknown']
+
+                def refine(self_, cond, st, truth):
+                    cc = _uncast(cond)
+                    if cc.k == 'call' and cc.a[0].endswith('::isYearValid') and len(cc.a[2]) == 1 and path_of(_uncast(cc.a[2][0])) == 'year':
+                        return 'valid' if truth else 'invalid'
+                    return st
+
+                def event(self_, e, st, tr):
+                    if e.k == 'cast' and e.a[0] == 8 and e.a[1] and any(x.k == 'var' and x.a[0] == 'year' for x in walk_expr(e.a[2])):
+                        narrowings.append((e, st))
+                        inner = _uncast(e.a[2])
+                        if inner.k == 'cond':
+                            cc = _uncast(inner.a[0])
+                            gated = cc.k == 'call' and cc.a[0].endswith('::isYearValid') and len(cc.a[2]) == 1 and path_of(_uncast(cc.a[2][0])) == 'year'
+                            in_false = any(x.k == 'var' and x.a[0] == 'year' for x in walk_expr(inner.a[2]))
+                            if gated and not in_false:
+                                return st       # (int8_t) (isYearValid(year) ? year - 2000 : sentinel)
+                        if st != 'valid':
+                            R.violation('R9', c, e.loc, 'the year is narrowed to int8 (%s) on a path where isYearValid(year) was not established: a year outside '
+                                        '1873..2127 wraps into a valid-looking date (2256 becomes 2000) instead of an error value' % show(e)[:80], detail=list(tr))
+                    return st
+            Engine(YR()).run(f.body)
+            delegates = any(e.k == 'call' and e.a[0].endswith('::forComponents') and any(path_of(_uncast(a)) == 'year' for a in e.a[2])
+                            for e in all_exprs(f.body))
+            R.instance('R9', c, f.loc, '%d narrowing(s), delegates=%s' % (len(narrowings), delegates))
+            n += 1
+            if not narrowings and not delegates:
+                R.violation('R9', c, f.loc, 'forComponents neither narrows the year under isYearValid(year) nor passes it to another forComponents')
+    if not n:
+        raise AnalysisError('anchor vanished: no forComponents(year, ...) factory found')
+
+
 def overflow_rules(R, lib):
-    R.rule('R8', 'no +, - or * of the date/time value types can leave the range of int32 for any field and argument values', floor=25)
+    year_gate_rule(R, lib)
+    R.rule('R8','no +, - or * of the date/time value types can leave the range of int32 for any field and argument values', floor=25)
     summ = Summaries(lib)
     nfun = 0
     for q, fs in sorted(lib.funcs.items()):
